@@ -23,25 +23,6 @@ PROP = "C15"
 TABLES = []
 MODELS = [("c15", "Extract/ExC15.v", "run_C15")]
 
-# Which variant of the model is tied to the repo: the code as it is (False) or
-# with fixes/C15-noop-completion-selected.patch applied (True).  Follows the
-# status of finding C15-F1 in known_findings.json ("known" -> as coded,
-# "fixed" -> repaired code).
-def _f1_fixed():
-    if os.environ.get("VERIF_C15_MODEL") in ("fixed", "as-coded"):     # for experiments on scratch worktrees
-        return os.environ["VERIF_C15_MODEL"] == "fixed"
-    try:
-        data = json.load(open(os.path.join(VERIF, "known_findings.json")))
-    except Exception:  # noqa
-        return False
-    for f in data.get("findings", []):
-        if f.get("id") == "C15-F1":
-            return f.get("status") == "fixed"
-    return False
-
-
-FIXED_F1 = _f1_fixed()
-
 LNAMES = {1: "Insert", 2: "DeleteBefore", 3: "MoveCursor", 4: "CompleteNext", 5: "CompletePrev", 6: "Cancel",
           7: "StartCompletion", 8: "StartTask", 9: "Tick", 10: "CYield", 11: "CEnd", 12: "VReturn", 13: "SReturn", 14: "InstallMenu"}
 END = object()
@@ -325,7 +306,7 @@ def group_shape_ok(g):
 def valid_case(case):
     try:
         cfg, text, cur, groups = case
-        if len(cfg) != 5 or any(x not in (0, 1) for x in (cfg[0], cfg[1], cfg[2], cfg[4])) or not isinstance(cfg[3], int):
+        if len(cfg) != 4 or any(x not in (0, 1) for x in cfg[:3]) or not isinstance(cfg[3], int):
             return False
         if not (isinstance(cur, int) and 0 <= cur <= len(text)) or not all(isinstance(c, int) for c in text):
             return False
@@ -535,10 +516,10 @@ def alphabet(kind):
     always = lambda i: True  # noqa
     menu = lambda i: i["cs"]  # noqa
     A = []
-    if kind in ("comp", "comp-cwt", "all"):
+    if kind in ("comp", "comp-noH", "all"):
         A += [("I", G_user([1, S("b")]), always), ("D", G_user([2, 1]), always), ("M", G_user([3, 0]), always),
               ("N", G_user([4, 1, 0]), menu), ("P", G_user([5, 1, 0]), menu), ("X", G_user([6]), menu),
-              ("H", G_user([14, [[S("ab"), -1], [S("ac"), -1]]]), always),
+              ] + ([] if kind == "comp-noH" else [("H", G_user([14, [[S("ab"), -1], [S("ac"), -1]]]), always)]) + [
               ("T", TICK, lambda i: i["unstarted"] > 0),
               ("Y1", G_sched([10, 0, S("ab"), -1]), lambda i: i["c"] > 0),
               ("Y2", G_sched([10, 0, S("a"), -1]), lambda i: i["c"] > 0),
@@ -574,7 +555,7 @@ RCOMPS = [("ab", -1), ("a", -1), ("abc", -1), ("x", 0), ("", 0), ("b", -1), ("ab
 
 
 def random_case(rng, maxlen):
-    cfg = [rng.randint(0, 1), rng.randint(0, 1), rng.randint(0, 1), rng.choice([10000, 10000, 1, 2, 3]), int(FIXED_F1)]
+    cfg = [rng.randint(0, 1), rng.randint(0, 1), rng.randint(0, 1), rng.choice([10000, 10000, 1, 2, 3])]
     text = rng.choice(["", "a", "ab", "ab", "a b", "ab\nab"])
     cur = rng.randint(0, len(text))
     n = rng.randint(3, maxlen)
@@ -628,23 +609,24 @@ def cycle_cases():
                 for k in (n + 2, 2 * n + 3):
                     groups = [[[7, 0]], [[9]]] + ys + ([[[9], [11, 0]]] if loaded else []) + [[[op, 1, 0]]] * k
                     groups += [[[9 - op, 1, 0]]] * (n + 1) + [[[6]]]
-                    out.append([[0, 0, 0, 10000, int(FIXED_F1)], S("a"), 1, groups])
+                    out.append([[0, 0, 0, 10000], S("a"), 1, groups])
     return out
 
 
-# the witness of C15_menu_consistent_refuted / C15_cancel_refuted (Props/C15.v)
-WITNESS = [[0, 0, 0, 10000, 0], S("ab"), 2,
+# the witness of C15_menu_consistent_pinned_refuted / C15_cancel_pinned_refuted (Props/C15.v): the
+# schedule of finding C15-F1 (repaired by /repo commit 8bc6590), kept as a regression schedule
+WITNESS = [[0, 0, 0, 10000], S("ab"), 2,
            [[[7, 0]], [[9]], [[9], [10, 0, S("ab"), -2]], [[4, 1, 0]], [[9], [11, 0]], [[6]]]]
 
 MALFORMED = [
-    [[0, 0, 0, 10000, 0], S("a"), 2, []],                                   # cursor beyond the text
-    [[0, 0, 0, 10000, 0], S("a"), -1, []],
-    [[0, 0, 0, 10000, 0], S("a"), 1, [[[6, 1]]]],                           # wrong arity
-    [[0, 0, 0, 10000, 0], S("a"), 1, [[[9], [10, 0, S("a"), 1]]]],          # Completion(start_position > 0)
-    [[0, 0, 0, 10000, 0], S("a"), 1, [[[7, 4]]]],                           # unknown flag
-    [[0, 0, 2, 10000, 0], S("a"), 1, []],
-    [[0, 0, 0, 10000, 0], S("a"), 1, [[[14]]]],
-    [[0, 0, 0, 10000], S("a"), 1, []],
+    [[0, 0, 0, 10000], S("a"), 2, []],                                   # cursor beyond the text
+    [[0, 0, 0, 10000], S("a"), -1, []],
+    [[0, 0, 0, 10000], S("a"), 1, [[[6, 1]]]],                           # wrong arity
+    [[0, 0, 0, 10000], S("a"), 1, [[[9], [10, 0, S("a"), 1]]]],          # Completion(start_position > 0)
+    [[0, 0, 0, 10000], S("a"), 1, [[[7, 4]]]],                           # unknown flag
+    [[0, 0, 2, 10000], S("a"), 1, []],
+    [[0, 0, 0, 10000], S("a"), 1, [[[14]]]],
+    [[0, 0, 0, 10000, 0], S("a"), 1, []],                                # a fifth configuration field
 ]
 
 
@@ -652,18 +634,21 @@ def gen_batches(chk):
     """yields (name, cases); each batch is processed and dropped before the next is generated"""
     rng = chk.rng
     thorough = chk.tier == "thorough"
-    fxb = int(FIXED_F1)
     yes = lambda i: True  # noqa
     fams = [
-        ("comp/start(common)", [0, 0, 0, 10000, fxb], "a", 1, "comp", [("S3", G_user([7, 3]), yes)], 7 if thorough else 5),
-        ("comp/start(plain)", [0, 0, 0, 10000, fxb], "a", 1, "comp", [("S0", G_user([7, 0]), yes)], 6 if thorough else 5),
-        ("comp/start(first)", [0, 0, 0, 10000, fxb], "a", 1, "comp", [("S1", G_user([7, 1]), yes)], 6 if thorough else 5),
-        ("comp/start(last),max=2", [0, 0, 0, 2, fxb], "a", 1, "comp", [("S2", G_user([7, 2]), yes)], 6 if thorough else 4),
-        ("comp/while-typing", [1, 0, 0, 10000, fxb], "a", 1, "comp", [("S3", G_user([7, 3]), yes)], 6 if thorough else 4),
-        ("validate+suggest", [0, 1, 1, 10000, fxb], "a", 1, "val", [], 7 if thorough else 6),
-        ("everything", [1, 1, 1, 10000, fxb], "a", 1, "all", [("S1", G_user([7, 1]), yes)], 5 if thorough else 4),
+        ("comp/start(common)", [0, 0, 0, 10000], "a", 1, "comp", [("S3", G_user([7, 3]), yes)], 6 if thorough else 5),
+        ("comp/start(plain)", [0, 0, 0, 10000], "a", 1, "comp", [("S0", G_user([7, 0]), yes)], 6 if thorough else 5),
+        ("comp/start(first)", [0, 0, 0, 10000], "a", 1, "comp", [("S1", G_user([7, 1]), yes)], 6 if thorough else 5),
+        ("comp/start(last),max=2", [0, 0, 0, 2], "a", 1, "comp", [("S2", G_user([7, 2]), yes)], 6 if thorough else 4),
+        ("comp/while-typing", [1, 0, 0, 10000], "a", 1, "comp", [("S3", G_user([7, 3]), yes)], 6 if thorough else 4),
+        ("validate+suggest", [0, 1, 1, 10000], "a", 1, "val", [], 7 if thorough else 6),
+        ("everything", [1, 1, 1, 10000], "a", 1, "all", [("S1", G_user([7, 1]), yes)], 5 if thorough else 4),
     ]
-    fixed = load_corpus(PROP) + cycle_cases() + ([WITNESS] if not FIXED_F1 else []) + MALFORMED
+    if thorough:
+        # one level deeper on the alphabet without InstallMenu
+        fams.append(("comp/start(common),no-InstallMenu", [0, 0, 0, 10000], "a", 1, "comp-noH",
+                     [("S3", G_user([7, 3]), yes)], 7))
+    fixed = load_corpus(PROP) + cycle_cases() + [WITNESS] + MALFORMED
     yield "corpus+cycle+witness+malformed", fixed
     for name, cfg, text, cur, kind, extra, depth in fams:
         out = []
@@ -745,7 +730,7 @@ def main(tier):
                 oracle_bad.add(i)
                 sched = [group_str(g) for g in c[3][:j + 1]]
                 chk.violation("oracle", "%s  [config cwt/vwt/suggest/max=%r text=%r cursor=%d schedule=%s -> %s]" % (
-                    clause, c[0][:4], unS(c[1]), c[2], " ; ".join(sched), describe_obs(trace[j][2])),
+                    clause, c[0], unS(c[1]), c[2], " ; ".join(sched), describe_obs(trace[j][2])),
                     tags, {"case": [c[0], c[1], c[2], c[3][:j + 1]], "clause": clause, "schedule": sched,
                            "observed": describe_obs(trace[j][2]),
                            "how": "harness/c15.py run_on_impl: real Buffer + gated completer/validator/suggester under set_app(Application) on a private loop"})
@@ -759,7 +744,7 @@ def main(tier):
         for i in sorted(chk.rng.sample(range(len(cases)), min(share, len(cases)))):
             vm_pairs.append((cases[i], impl_results[i], sx_norm(impl_results[i]) == model_results[i]))
         del cases, impl_results, model_results
-    chk.coverage["input_distribution"] = dict(dist, labels_executed=lcount, model_variant="fixed" if FIXED_F1 else "as-coded")
+    chk.coverage["input_distribution"] = dict(dist, labels_executed=lcount)
 
     # extraction/driver cross-check inside Coq on a sample
     bad, logs = vm_crosscheck(PROP, "run_C15", "Model.C15_Async", [(c, r) for c, r, _ in vm_pairs], per_file=75)
@@ -788,7 +773,6 @@ def main(tier):
         "refresh_while_loading, on_* event handlers, invalidate() and the 0.3 s refresh timer are not modelled (they do not write the observed attributes)",
         "the real loop starts created tasks FIFO, all at the next iteration; the theorems also cover any other start order (StartTask i), which is not replayed",
         "synchronous validate(), history navigation, undo and other Buffer methods are outside the label alphabet",
-        "model variant tied: " + ("fixed (C15-F1 repaired)" if FIXED_F1 else "as coded (C15-F1 present)"),
     ]
     return chk.finish()
 
@@ -801,7 +785,7 @@ def replay(data):
         return 0
     out, trace, _ = impl_case(case)
     rc = 0
-    print("config cwt/vwt/suggest/max/fixed-model = %r  text=%r cursor=%d" % (case[0], unS(case[1]), case[2]))
+    print("config cwt/vwt/suggest/max = %r  text=%r cursor=%d" % (case[0], unS(case[1]), case[2]))
     for g, ob, oa in trace:
         bad = oracle_step(g, ob, oa)
         print("  %-34s -> %s   %s" % (group_str(g), describe_obs(oa), "ORACLE FAILS: " + bad[0] if bad else "oracle ok"))
